@@ -18,13 +18,14 @@ pub fn new_box(area: &str) -> Option<Box<dyn VerifBox>> {
         "c17" => Some(Box::new(
             crate::protocol::libp2p::kademlia::verif_c17::StoreBox::new(),
         )),
+        "c04" => Some(Box::new(crate::substream::verif_c04::SubstreamBox::new())),
         _ => None,
     }
 }
 
 /// Names of all adapters.
 pub fn areas() -> Vec<&'static str> {
-    vec!["c17"]
+    vec!["c04", "c17"]
 }
 
 /// Decode a hex string.
